@@ -162,6 +162,10 @@ class _FakeTime:
     def monotonic(self):
         return self._env.now
 
+    def sleep(self, seconds):
+        # a plain sleep is a blocking wait on nothing
+        self._env.wait(max(0.0, seconds), [], [])
+
 
 class Adapter:
     name = "?"
@@ -269,7 +273,17 @@ class _FakePoller:
     def unregister(self, obj):
         del self.reg[self._key(obj)]  # KeyError like the real poller
 
+    @property
+    def sockets(self):
+        return [(k, f) for k, f in self.reg.items()]
+
     def poll(self, timeout=None):
+        if not self.reg:
+            # like pyzmq's Poller: with nothing registered poll() returns at once, whatever the timeout (no time passes)
+            self.env.nwaits += 1
+            if self.env.nwaits > self.env.max_waits:
+                raise Stuck("too many waits")
+            return []
         watched = {self.fdmap[k]: k for k in self.reg if k in self.fdmap}
         real = [k for k in self.reg if k in self.env.realfds]
         for k in real:
